@@ -143,7 +143,7 @@ pub fn c19(ctx: &Ctx) -> (CheckMeta, Outcome) {
             }
         }
         let o = run_all(tasks, threads());
-        total.cov.add_extra("digest_reader_transitions", o.cov.transitions);
+        total.cov.add_extra("digest_reader_model_transitions", o.cov.extra.get("reader_model_transitions").and_then(|x| x.as_u64()).unwrap_or(0));
         total.merge(o);
     }
     // (c) code streams
@@ -182,7 +182,7 @@ pub fn c19(ctx: &Ctx) -> (CheckMeta, Outcome) {
     let meta = CheckMeta {
         property: "C19".into(),
         level: "model_checking".into(),
-        rule: "the harness is built in several variants of the library (features default / checks / no_copy_impls / both, optimised profile and a profile with debug assertions and overflow checks: quick = default, checks+no_copy_impls, checks+debug assertions; thorough = all eight); every variant runs the same reduced explorations restricted to clean arguments: writer BFS depth 2 (boundary write_bits/unary/flush, code writes, io::Write, copy-in from three source kinds), reader BFS to the fixpoint (boundary reads, every code read variant, copies into 8/64/128-bit writers, io::Read, seek), code streams of all codes/parameters on the boundary grid; every observation must match the model (hence all builds agree with each other, and no library-issued write trips the check) and the per-section digests (distinct writer model states, reader transitions, stream evaluations) must be identical across variants (a build that silently explores less is reported); plus write_bits(v, n) for every n in 0..=64, clean v and v with each single bit >= n set, at two fill levels, all word sizes: panics iff the checks feature is on and v is dirty".into(),
+        rule: "the harness is built in several variants of the library (features default / checks / no_copy_impls / both, optimised profile and a profile with debug assertions and overflow checks: quick = default, checks+no_copy_impls, checks+debug assertions; thorough = all eight); every variant runs the same reduced explorations restricted to clean arguments: writer BFS depth 2 (boundary write_bits/unary/flush, code writes, io::Write, copy-in from three source kinds), reader BFS to the fixpoint (boundary reads, every code read variant, copies into 8/64/128-bit writers, io::Read, seek), code streams of all codes/parameters on the boundary grid; every observation must match the model (hence all builds agree with each other, and no library-issued write trips the check) and the per-section digests (distinct writer model states, distinct reader model transitions (position, operation), stream evaluations) must be identical across variants (a build that silently explores less is reported); plus write_bits(v, n) for every n in 0..=64, clean v and v with each single bit >= n set, at two fill levels, all word sizes: panics iff the checks feature is on and v is dirty".into(),
         assumptions: vec!["same host and toolchain for all variants".into()],
     };
     (meta, total)
@@ -190,9 +190,14 @@ pub fn c19(ctx: &Ctx) -> (CheckMeta, Outcome) {
 
 /// parent-side: per-section digests of all variants must agree
 pub fn post_merge(per_variant: &[(String, std::collections::BTreeMap<String, serde_json::Value>)], out: &mut Outcome) {
-    for key in ["digest_writer_model_states", "digest_reader_transitions", "digest_stream_evaluations"] {
+    // a capped exploration covers an order-dependent part of the space: digests are then not comparable
+    let capped = !out.cov.caps_hit.is_empty();
+    if capped {
+        out.cov.notes.push("a state/wall cap was hit: the cross-build digests are reported but not compared".into());
+    }
+    for key in ["digest_writer_model_states", "digest_reader_model_transitions", "digest_stream_evaluations"] {
         let vals: Vec<(String, u64)> = per_variant.iter().map(|(n, m)| (n.clone(), m.get(key).and_then(|x| x.as_u64()).unwrap_or(0))).collect();
-        if vals.iter().any(|x| x.1 != vals[0].1) || vals[0].1 == 0 {
+        if !capped && (vals.iter().any(|x| x.1 != vals[0].1) || vals[0].1 == 0) {
             out.violations.push(Violation {
                 property: "C19".into(),
                 system: "build-matrix".into(),
